@@ -33,6 +33,54 @@ example : (mergeAll lexsortIdx [w3A', w3B]).map (readsAsWhole · w3Whole) = some
 -- the other listing order as well
 example : (mergeAll lexsortIdx [w3B, w3A']).map (readsAsWhole · w3Whole) = some true := by decide
 
+/-! ### non-vacuity of `C06_merge_step_partial` / `C06_unstructured_partial`: a square with a point field
+     and a cell field, split into its two triangles with shuffled local numbering -/
+
+def wsWhole : MeshFields :=
+  ⟨⟨2, [[0, 0], [1, 0], [1, 1], [0, 1]], [("TRIANGLE", [[0, 1, 2], [0, 2, 3]])]⟩,
+   [⟨"p", ⟨.int true 32, [4], [10, 20, 30, 40]⟩⟩], [⟨"c", "TRIANGLE", ⟨.flt f64, [2], [7, 8]⟩⟩]⟩
+def wsA : MeshFields :=
+  ⟨⟨2, [[1, 1], [0, 0], [1, 0]], [("TRIANGLE", [[1, 2, 0]])]⟩,
+   [⟨"p", ⟨.int true 32, [3], [30, 10, 20]⟩⟩], [⟨"c", "TRIANGLE", ⟨.flt f64, [1], [7]⟩⟩]⟩
+def wsB : MeshFields :=
+  ⟨⟨2, [[0, 1], [0, 0], [1, 1]], [("TRIANGLE", [[1, 2, 0]])]⟩,
+   [⟨"p", ⟨.int true 32, [3], [40, 10, 30]⟩⟩], [⟨"c", "TRIANGLE", ⟨.flt f64, [1], [8]⟩⟩]⟩
+
+example : PieceOk wsA 2 ["c"] ["p"] (fun _ => 1) (fun _ => 1) := by constructor <;> decide
+example : PieceOk wsB 2 ["c"] ["p"] (fun _ => 1) (fun _ => 1) := by constructor <;> decide
+example : bringsNewPoint wsA.mesh.points wsB.mesh.points = true ∧ f3Class [wsA, wsB] = false ∧
+    f3Class [wsB, wsA] = false := by decide
+example : wsWhole.mesh.points.Nodup := by decide
+-- the pieces split the whole data set (cells per type with data; point items)
+example : (cellItemsOf wsWhole ["c"] "TRIANGLE").Perm ([wsA, wsB].flatMap (cellItemsOf · ["c"] "TRIANGLE")) := by
+  decide
+example : (∀ f ∈ [wsA, wsB], ∀ it ∈ pointItemsOf f ["p"], it ∈ pointItemsOf wsWhole ["p"]) ∧
+    (∀ it ∈ pointItemsOf wsWhole ["p"], ∃ f ∈ [wsA, wsB], it ∈ pointItemsOf f ["p"]) := by decide
+-- all hypotheses of `C06_unstructured_partial` hold together (with the driver's sort): the theorem applies
+example : ∃ m, mergeAll lexsortIdx [wsB, wsA] = some m ∧
+    (∀ ct, (cellItemsOf m ["c"] ct).Perm (cellItemsOf wsWhole ["c"] ct)) ∧
+    (pointItemsOf m ["p"]).Perm (pointItemsOf wsWhole ["p"]) ∧ m.mesh.points.Nodup :=
+  C06_unstructured_partial lexsortIdx (fun pts d h => lexsortIdx_isLexSort pts d h) 2 ["c"] ["p"]
+    (fun _ => 1) (fun _ => 1) wsWhole [wsB, wsA]
+    (by intro f hf
+        simp only [List.mem_cons, List.not_mem_nil, or_false] at hf
+        rcases hf with rfl | rfl <;> (constructor <;> decide))
+    (by decide)
+    (by intro ct
+        by_cases h : ct = "TRIANGLE"
+        · subst h; decide
+        · have h' : ("TRIANGLE" == ct) = false := by simpa using fun e => h e.symm
+          simp [cellItemsOf, Mesh.cellsOf, wsWhole, wsA, wsB, List.find?, h'])
+    (by decide) (by decide) (by decide) (by decide)
+-- and the conclusion is observable, in both listing orders
+example : (mergeAll lexsortIdx [wsA, wsB]).map (readsAsWholeBy ["c"] ["p"] · wsWhole) = some true ∧
+    (mergeAll lexsortIdx [wsB, wsA]).map (readsAsWholeBy ["c"] ["p"] · wsWhole) = some true ∧
+    (mergeAll lexsortIdx [wsA, wsB]).map (readsAsWhole · wsWhole) = some true := by decide
+-- the merged cell data follows the cells: 7 stays on the lower triangle, 8 on the upper one
+example : (mergeAll lexsortIdx [wsB, wsA]).map (cellItemsOf · ["c"] "TRIANGLE") =
+    some [⟨"TRIANGLE", [[0, 0], [1, 1], [0, 1]], [("c", [8])]⟩,
+          ⟨"TRIANGLE", [[0, 0], [1, 0], [1, 1]], [("c", [7])]⟩] := by decide
+
 /-! ### index remapping, duplicate search -/
 
 -- local points 1 and 3 are duplicates of global points 7 and 2; offset 10
